@@ -45,7 +45,7 @@ def gen_pos(rng, lo=1.0, hi=10.0, integer=False):
 
 
 def gen_los(rng):
-    kind = rng.choice(["generic", "generic", "grazing", "surface", "near", "far-side"])
+    kind = rng.choice(["generic", "generic", "grazing", "surface", "near", "far-side", "neighbours"])
     R = float(earth().radius)
     r1 = gen_pos(rng, 1.001, 8.0, integer=rng.random() < 0.5)
     if kind == "generic":
@@ -53,6 +53,19 @@ def gen_los(rng):
     elif kind == "near":
         r2 = [x + rng.choice([-1, 1]) * rng.uniform(1, 200) for x in r1]
         r2 = [round(x * 64) / 64 for x in r2]
+    elif kind == "neighbours":
+        # two sites a few km apart, on or just above the surface: the chord between them dips d^2 / 8R below the sphere
+        r1 = gen_pos(rng, 1.0, 1.0)
+        a = np.array(r1)
+        u = np.cross(a, [rng.gauss(0, 1) for _ in range(3)])
+        u /= np.linalg.norm(u)
+        d = rng.choice([2.0, 5.0, 12.0, 20.0, 27.0, rng.uniform(1, 60)])
+        dip = d * d / (8 * R)
+        h1, h2 = [rng.choice([0.0, 0.3 * dip, 0.8 * dip, 1.5 * dip, 3 * dip]) for _ in range(2)]
+        p1 = a / np.linalg.norm(a) * (R + h1)
+        q = a + u * d
+        p2 = q / np.linalg.norm(q) * (R + h2)
+        r1, r2 = [float(x) for x in p1], [float(x) for x in p2]
     elif kind == "surface":
         r1 = gen_pos(rng, 1.0, 1.0001)
         r2 = gen_pos(rng, 1.0, 7.0)
@@ -99,7 +112,7 @@ def gen_fov(rng, shape):
     k = rng.choice([0.0, 0.5, 0.9, 1.1, 1.5, 3.0])
     azb = azp + rng.choice([-1, 1]) * k * half * rng.random()
     elb = min(1.55, max(-1.55, elp + rng.choice([-1, 1]) * k * half * rng.random()))
-    c = {"op": shape, "p": gen_dir(rng, azp, elp), "b": gen_dir(rng, azb, elb), "size": size, "size2": rng.choice([size, 2.0, 20.0]), "seam": seam,
+    c = {"op": shape, "p": gen_dir(rng, azp, elp), "b": gen_dir(rng, azb, elb), "size": size, "size2": rng.choice([size, 2.0, 20.0]), "seam": seam, "via_config": rng.random() < 0.4,
          "phi": rng.choice([0.3, 1.0, math.pi, 2 * math.pi - azp + 0.01, -azp - 0.005, 4.0])}
     return c
 
@@ -177,6 +190,20 @@ def sun_case(c):
     return tgt, sun
 
 
+def fov_from_config(shape, size, size2):
+    """the field of view as a scenario builds it (`FieldOfView.fromConfig`), right after another sensor's that shares its first angle:
+    every sensor's field of view has its own configured size"""
+    from resonaate.scenario.config.sensor_config import ConicFieldOfViewConfig, RectangularFieldOfViewConfig
+    from resonaate.sensors.field_of_view import FieldOfView
+
+    if shape == "conic":
+        FieldOfView.fromConfig(RectangularFieldOfViewConfig(azimuth_angle=size, elevation_angle=min(179.0, size * 1.5)))
+        return FieldOfView.fromConfig(ConicFieldOfViewConfig(cone_angle=size))
+    FieldOfView.fromConfig(RectangularFieldOfViewConfig(azimuth_angle=size, elevation_angle=min(179.0, size2 * 2 + 1)))
+    FieldOfView.fromConfig(ConicFieldOfViewConfig(cone_angle=size))
+    return FieldOfView.fromConfig(RectangularFieldOfViewConfig(azimuth_angle=size, elevation_angle=size2))
+
+
 def impl_case(c):
     from resonaate.physics import sensor_utils as su
     from resonaate.physics.measurements import getAzimuth, getElevation
@@ -187,7 +214,7 @@ def impl_case(c):
         r1, r2 = np.array(c["r1"]), np.array(c["r2"])
         return {"los": bool(su.lineOfSight(r1, r2)), "rev": bool(su.lineOfSight(r2, r1))}
     if op == "conic":
-        f = ConicFoV(math.radians(c["size"]))
+        f = fov_from_config("conic", c["size"], None) if c.get("via_config") else ConicFoV(math.radians(c["size"]))
         p, b = c["p"], c["b"]
         return {
             "in": bool(f.inFieldOfView(v6(p), v6(b))), "self": bool(f.inFieldOfView(v6(p), v6(p))),
@@ -195,7 +222,8 @@ def impl_case(c):
             "scaled": bool(f.inFieldOfView(v6([2 * x for x in p]), v6([0.5 * x for x in b]))),
         }
     if op == "rect":
-        f = RectangularFoV(azimuth_angle=math.radians(c["size"]), elevation_angle=math.radians(c["size2"]))
+        f = (fov_from_config("rectangular", c["size"], c["size2"]) if c.get("via_config")
+             else RectangularFoV(azimuth_angle=math.radians(c["size"]), elevation_angle=math.radians(c["size2"])))
         p, b = c["p"], c["b"]
         pr, br = rotz(p, c["phi"]), rotz(b, c["phi"])
         return {
